@@ -291,6 +291,11 @@ func (root *Root) addExtends(extends ...*Extend) (undo []func(), err error) {
 			// With no schema block the schema is implied by the type names,
 			// that is what gets extended. (A nil *Schema in cur would not
 			// compare equal to nil below.)
+			if root.schema != nil {
+				// The root types assureSchema picks up now are part of this
+				// load as well and go if it fails.
+				undo = append(undo, extendUndo(root.schema))
+			}
 			root.assureSchema()
 			cur = root.schema
 		}
